@@ -1,4 +1,5 @@
 import Robotools.Props.C05History
+import Robotools.Proofs.GenFns
 #print axioms Robotools.C05.combine_zero
 #print axioms Robotools.C05.combine_spec
 #print axioms Robotools.C05.wellComp_spec
@@ -15,6 +16,8 @@ import Robotools.Props.C05History
 #print axioms Robotools.C05.constructed_good
 #print axioms Robotools.CtorGood.mk_good
 #print axioms Robotools.CtorGood.trough_mk_good
+#print axioms Robotools.GenFns.all_translated
+#print axioms Robotools.GenFns.gen_combine_composition_ok
 #print axioms Robotools.Amt.mixed_removeStep
 #print axioms Robotools.Amt.mixed_addStep
 #print axioms Robotools.Amt.take_amt
